@@ -232,8 +232,10 @@ impl BitFont {
         // let flags = u32::from_le_bytes(data[12..16].try_into().unwrap());
         let length = u32::from_le_bytes(data[16..20].try_into().unwrap()) as i32;
         let charsize = u32::from_le_bytes(data[20..24].try_into().unwrap()) as i32;
-        if length < 0 || charsize <= 0 || length * charsize + headersize as i32 != data.len() as i32 || headersize > data.len() {
-            return Err(FontError::LengthMismatch(data.len(), (length * charsize) as usize + headersize).into());
+        // 64-bit: length * charsize of a damaged header must not wrap around to the right size
+        let expected = length as i64 * charsize as i64 + headersize as i64;
+        if length < 0 || charsize <= 0 || expected != data.len() as i64 || headersize > data.len() {
+            return Err(FontError::LengthMismatch(data.len(), expected.max(0) as usize).into());
         }
         let height = u32::from_le_bytes(data[24..28].try_into().unwrap()) as usize;
         let width = u32::from_le_bytes(data[28..32].try_into().unwrap()) as usize;
